@@ -5,7 +5,7 @@ value validator; every site that accepts an attribute tests the attribute's vers
 Does not decide that calc_element_insert_range returns exactly the order-preserving positions (computed numbers)."""
 import json, os, re
 from ir import Program, callee_of, callee_generic, has_field, ends_in_field
-from flow import is_local_op, call_matches, must_pass, deep_sources, switch_edges_on_call_result, source_names, iter_uses, origins, const_val, defs_of
+from flow import is_local_op, call_matches, must_pass, deep_sources, switch_edges_on_call_result, source_names, iter_uses, origins, const_val, defs_of, forward_taint
 import events as E
 import c11
 from pairing import calls, guarded_by_true, iteration_start
@@ -103,25 +103,107 @@ def run(ctx):
                 continue
             names, cs, consts = all_sources(b, pos_args[0])
             if at:
-                # both comparisons guard the call
-                les = [(pos, st) for pos, st in b.iter_stmts() if st['k'] == 'assign' and st['rv']['k'] == 'bin' and st['rv']['op'] in ('Le', 'Ge', 'Lt', 'Gt')]
+                # both bounds guard the call.  Roles by provenance, not by name: start / end = component .0 / .1 of the tuple that
+                # calc_element_insert_range returned (through `?`), position = a usize parameter.  Accepted guards: a comparison whose
+                # outcome on the edge the call depends on is `start <= position` resp. `position <= end` (in either operand order and
+                # polarity: `if position < start { return Err }` is the same guard), or RangeInclusive::contains(&(start..=end), &position).
+                from flow import source_locals
+                comp = {t['dst']['l']: None}
+                changed = True
+                while changed:
+                    changed = False
+                    for q, st in b.iter_stmts():
+                        if st['k'] == 'assign' and not st['dst']['p'] and st['rv']['k'] == 'use' and is_local_op(st['rv']['o']) and st['rv']['o']['l'] in comp and st['dst']['l'] not in comp:
+                            c_ = comp[st['rv']['o']['l']]
+                            for pr in st['rv']['o']['p']:
+                                if pr in ('.0', '.1') and c_ is None:
+                                    c_ = int(pr[1])
+                            comp[st['dst']['l']] = c_
+                            changed = True
+                    for q, tt in b.iter_calls():
+                        if call_matches(tt, r'Try>::branch$') and tt['args'] and is_local_op(tt['args'][0]) and tt['args'][0]['l'] in comp and tt['dst']['l'] not in comp:
+                            comp[tt['dst']['l']] = comp[tt['args'][0]['l']]
+                            changed = True
+                usize_params = {l for l in range(1, b.argc + 1) if (b.local_ty(l) or '') == 'usize'}
+
+                def role(o):
+                    if not is_local_op(o):
+                        return None
+                    sl = source_locals(b, o)
+                    cs_ = {comp[x] for x in sl if x in comp and comp[x] is not None}
+                    if cs_ == {0}:
+                        return 'start'
+                    if cs_ == {1}:
+                        return 'end'
+                    if sl & usize_params and not cs_:
+                        return 'pos'
+                    return None
+
+                def needed_edge(blk, tt):
+                    """'T' / 'F' if the call is only reachable over the true / false edge of the two-way bool switch, else None"""
+                    if set(dict(tt['ts']).keys()) != {'0'}:
+                        return None
+                    if must_pass(b, (0, 0), [p], through=(), avoid_edges={(blk, tt['else'])}):
+                        return 'T'
+                    if must_pass(b, (0, 0), [p], through=(), avoid_edges={(blk, dict(tt['ts'])['0'])}):
+                        return 'F'
+                    return None
+                NEG = {'Le': 'Gt', 'Lt': 'Ge', 'Ge': 'Lt', 'Gt': 'Le'}
+                SWAP = {'Le': 'Ge', 'Lt': 'Gt', 'Ge': 'Le', 'Gt': 'Lt'}
                 lo = hi = False
-                for pos, st in les:
-                    na = all_sources(b, st['rv']['a'])[0]; nb = all_sources(b, st['rv']['b'])[0]
-                    sw = [q for q, tt in b.iter_terms() if tt['k'] == 'switch' and is_local_op(tt['d']) and tt['d']['l'] == st['dst']['l']]
+                for pos, st in b.iter_stmts():
+                    if st['k'] != 'assign' or st['rv']['k'] != 'bin' or st['rv']['op'] not in NEG:
+                        continue
+                    sw = [q for q, tt in b.iter_terms() if tt['k'] == 'switch' and is_local_op(tt['d']) and tt['d']['l'] in forward_taint(b, {st['dst']['l']}, through_refs=False)]
                     if not sw:
                         continue
                     tt = b.blocks[sw[0][0]]['term']
-                    true_t = tt['else']
-                    guarded = must_pass(b, (0, 0), [p], through=(), avoid_edges={(sw[0][0], true_t)})
-                    if not guarded:
+                    edge = needed_edge(sw[0][0], tt)
+                    if edge is None:
                         continue
-                    op = st['rv']['op']
-                    if ('start_pos' in na and 'position' in nb and op == 'Le') or ('position' in na and 'start_pos' in nb and op == 'Ge'):
+                    op = st['rv']['op'] if edge == 'T' else NEG[st['rv']['op']]
+                    ra, rb = role(st['rv']['a']), role(st['rv']['b'])
+                    if ra == 'pos':
+                        ra, rb, op = rb, 'pos', SWAP[op]
+                    # now: <ra> op position
+                    if rb == 'pos' and ra == 'start' and op == 'Le':
                         lo = True
-                    if ('position' in na and 'end_pos' in nb and op == 'Le') or ('end_pos' in na and 'position' in nb and op == 'Ge'):
+                    if rb == 'pos' and ra == 'end' and op == 'Ge':
                         hi = True
-                C.check(lo and hi and 'position' in names, 'C07-MUST-range', '%s|%s|position-within-range' % (fn, cname), '%s hands the requested position to %s without both bounds checks start_pos <= position <= end_pos' % (fn, cname), b.where(p),
+                for q, tt in b.iter_calls():
+                    if call_matches(tt, r'RangeInclusive::<.*>::contains|RangeInclusive<.*>::contains') and len(tt['args']) == 2:
+                        from flow import origins
+                        ends = []
+                        for org in origins(b, tt['args'][0]):
+                            if org[0] not in ('param', 'const', 'place') and org[1].get('k') == 'assign' and org[1]['rv']['k'] == 'ref':
+                                org = ('place', org[1]['rv']['pl'])
+                            if org[0] == 'place':
+                                for q2, d2 in defs_of(b, org[1]['l']):
+                                    if d2.get('k') == 'call' and call_matches(d2, r'RangeInclusive::<.*>::new$') and len(d2['args']) == 2:
+                                        ends = [role(d2['args'][0]), role(d2['args'][1])]
+                            elif org[0] not in ('param', 'const') and org[1].get('k') == 'call' and call_matches(org[1], r'RangeInclusive::<.*>::new$'):
+                                ends = [role(org[1]['args'][0]), role(org[1]['args'][1])]
+                        item = None
+                        for org in origins(b, tt['args'][1]):
+                            if org[0] not in ('param', 'const', 'place') and org[1].get('k') == 'assign' and org[1]['rv']['k'] == 'ref':
+                                item = role({'l': org[1]['rv']['pl']['l'], 'p': []})
+                            elif org[0] == 'place':
+                                item = role({'l': org[1]['l'], 'p': []})
+                        sw2 = b.blocks[tt['t']]['term'] if tt.get('t') is not None else None
+                        if ends == ['start', 'end'] and item == 'pos' and sw2 is not None and sw2['k'] == 'switch':
+                            dl = forward_taint(b, {tt['dst']['l']}, through_refs=False)
+                            neg = False
+                            # `!range.contains(..)`: a Not between the call and the switch flips the edge
+                            for q3, s3 in b.iter_stmts():
+                                if s3['k'] == 'assign' and s3['rv']['k'] == 'un' and s3['rv'].get('op') == 'Not' and is_local_op(s3['rv']['o']) and s3['rv']['o']['l'] in dl:
+                                    neg = True
+                                    dl = dl | forward_taint(b, {s3['dst']['l']}, through_refs=False)
+                            for q4, t4 in b.iter_terms():
+                                if t4['k'] == 'switch' and is_local_op(t4['d']) and t4['d']['l'] in dl:
+                                    edge = needed_edge(q4[0], t4)
+                                    if edge == ('F' if neg else 'T'):
+                                        lo = hi = True
+                C.check(lo and hi and role(pos_args[0]) == 'pos', 'C07-MUST-range', '%s|%s|position-within-range' % (fn, cname), '%s hands the requested position to %s without both bounds checks start_pos <= position <= end_pos' % (fn, cname), b.where(p),
                         sample={'fn': fn, 'guards': ['start_pos <= position', 'position <= end_pos']} if i == 0 else None)
             else:
                 C.check(any(c.endswith('calc_element_insert_range') for c in cs) and 'position' not in names, 'C07-MUST-range', '%s|%s|position-from-range' % (fn, cname), '%s does not insert at a position taken from the computed range' % fn, b.where(p))
